@@ -287,3 +287,38 @@ def prop(case, ctx):
 def _var(decl):
     import re
     return re.search(r'v_\d+_\d+', decl).group()
+
+
+def pre(ctx):
+    """round lengths and empty parameter lists, all alive together: the name asked for is the name of the
+    type obtained, for arrays of 2**k-1, 2**k, 2**k+1 items next to function pointers over the same types
+    (in-line FFI and C-backend FFI)"""
+    import cffi, _cffi_backend
+    held = []
+    n_eval = 0
+    for ffi in (cffi.FFI(), _cffi_backend.FFI()):
+        for T in ('char', 'int', 'double', 'char *', 'int *'):
+            wanted = []
+            for res in (T, T + ' *', 'void'):
+                for params in ('void', T, T + ', ...'):
+                    wanted.append(('(*)(%s)' % params, res))
+            for k in list(range(0, 8)) + [2 ** e + d for e in range(4, 41) for d in (-1, 0, 1)]:
+                if k * (8 if T.endswith('*') else {'char': 1, 'int': 4, 'double': 8}[T]) < 2 ** 63:
+                    wanted.append(('[%d]' % k, T))
+            for suffix, base in wanted:
+                name = ffi.getctype(base, suffix)
+                t = ffi.typeof(name)
+                held.append(t)
+                n_eval += 1
+                if ffi.typeof(ffi.getctype(t)) is not t:
+                    ctx.fail('typeof(getctype(t)) is not t for t = typeof(%r) = %r' % (name, t), sweep=True)
+                if suffix.startswith('['):
+                    ok = t.kind == 'array' and t.length == int(suffix[1:-1]) and t.item is ffi.typeof(base)
+                else:
+                    ok = (t.kind == 'function' and t.result is ffi.typeof(base)
+                          and t.ellipsis == suffix.endswith('...)'))
+                if not ok:
+                    ctx.fail('getctype(%r, %r) = %r, but typeof() of that name is %r' % (base, suffix, name, t),
+                             sweep=True)
+    ctx.extra['round_length_sweep'] = n_eval
+    ctx.note(['round-length-sweep', n_eval], True, ['round-length-sweep'])
